@@ -1,0 +1,435 @@
+//go:build verif
+
+// Contracts for property C06 (< is a strict total order consistent with =), worker w-c06.
+// Comments only; read by /verif/engine (govc). Vocabulary: /verif/specs/40_order.spec|.smt2.
+package rel
+
+// ---- kinds (value_kind.go and the registerKind(...) initialisers) ---------------------------------
+
+// registerKind (value_kind.go) is NOT under contract: it returns its first argument after an
+// init-time duplicate check `panic(...)` whose precondition is about the package-level map `kinds`,
+// which the spec language cannot name. The globalfacts below are the literal first arguments of the
+// registerKind(...) initialisers (checked by reading; `result == kind` is the last statement).
+//@ globalfact numberKind numberKind == 100
+//@ globalfact emptySetKind emptySetKind == 198
+//@ globalfact trueSetKind trueSetKind == 199
+//@ globalfact genericSetKind genericSetKind == 200
+//@ globalfact nativeFunctionKind nativeFunctionKind == 203
+//@ globalfact stringKind stringKind == 204
+//@ globalfact closureKind closureKind == 205
+//@ globalfact eclosureKind eclosureKind == 206
+//@ globalfact bytesKind bytesKind == 207
+//@ globalfact arrayKind arrayKind == 208
+//@ globalfact dictKind dictKind == 209
+//@ globalfact unionSetKind unionSetKind == 210
+//@ globalfact relationKind relationKind == 211
+//@ globalfact genericTupleKind genericTupleKind == 300
+//@ globalfact stringCharTupleKind stringCharTupleKind == 301
+//@ globalfact arrayItemTupleKind arrayItemTupleKind == 302
+//@ globalfact dictValueTupleKind dictValueTupleKind == 303
+//@ globalfact bytesByteTupleKind bytesByteTupleKind == 304
+
+// ---- StringCharTuple (value_tuple_str_char.go) ------------------------------------------------------
+
+//@ func (StringCharTuple).Kind(t)
+//@   tags C06, C10
+//@   pure
+//@   ensures[C06] reg: result == 301
+//@   ensures[C06] refines: result == kind(box(t))
+
+//@ func (StringCharTuple).Less(t; v)
+//@   tags C06, C10
+//@   pure
+//@   requires aValue(v)
+//@   ensures[C06] refines: result == less(box(t), v)
+//@   ensures[C06] exact: result == (kind(v) != 301 ? 301 < kind(v) : lexII(t.at, t.char, v.(StringCharTuple).at, v.(StringCharTuple).char))
+
+// ---- BytesByteTuple (value_tuple_bytes_byte.go) -----------------------------------------------------
+
+//@ func (BytesByteTuple).Kind(t)
+//@   tags C06, C10
+//@   pure
+//@   ensures[C06] reg: result == 304
+//@   ensures[C06] refines: result == kind(box(t))
+
+//@ func (BytesByteTuple).Less(t; v)
+//@   tags C06, C10
+//@   pure
+//@   requires aValue(v)
+//@   ensures[C06] refines: result == less(box(t), v)
+//@   ensures[C06] exact: result == (kind(v) != 304 ? 304 < kind(v) : lexII(t.at, t.byteval, v.(BytesByteTuple).at, v.(BytesByteTuple).byteval))
+
+// ---- Number (value_number.go) -----------------------------------------------------------------------
+
+//@ func (Number).Kind(n)
+//@   tags C06, C10
+//@   pure
+//@   ensures[C06] reg: result == 100
+//@   ensures[C06] refines: result == kind(mkval(rel.Number, n))
+
+//@ func (Number).Less(n; v)
+//@   tags C06, C10
+//@   pure
+//@   requires aValue(v)
+//@   ensures[C06] refines: result == less(mkval(rel.Number, n), v)
+//@   ensures[C06] exact: result == (kind(v) != 100 ? 100 < kind(v) : n < v.(Number))
+
+// ---- ArrayItemTuple (value_tuple_array_item.go) ------------------------------------------------------
+
+//@ func (ArrayItemTuple).Kind(t)
+//@   tags C06, C10
+//@   pure
+//@   ensures[C06] reg: result == 302
+//@   ensures[C06] refines: result == kind(box(t))
+
+//@ func (ArrayItemTuple).Less(t; v)
+//@   tags C06, C10
+//@   pure
+//@   requires aValue(v) && t.item != nil
+//@   ensures[C06] refines: result == less(box(t), v)
+//@   ensures[C06] exact: result == (kind(v) != 302 ? 302 < kind(v) : (t.at < v.(ArrayItemTuple).at || (t.at == v.(ArrayItemTuple).at && less(t.item, v.(ArrayItemTuple).item))))
+
+// ---- DictEntryTuple (value_tuple_dict_entry.go) ------------------------------------------------------
+
+//@ func (DictEntryTuple).Kind(t)
+//@   tags C06, C10
+//@   pure
+//@   ensures[C06] reg: result == 303
+//@   ensures[C06] refines: result == kind(box(t))
+
+//@ func (DictEntryTuple).Less(t; v)
+//@   tags C06, C10
+//@   pure
+//@   requires aValue(v) && t.at != nil && t.value != nil
+//@   ensures[C06] refines: result == less(box(t), v)
+//@   ensures[C06] exact: result == (kind(v) != 303 ? 303 < kind(v) : (eq(t.at, v.(DictEntryTuple).at) ? less(t.value, v.(DictEntryTuple).value) : less(t.at, v.(DictEntryTuple).at)))
+
+// ==== order lemmas (the property C06 itself), proved through the method contracts above ==============
+
+// ---- StringCharTuple
+//@ lemma[C06] c06_sct_irrefl(a: rel.StringCharTuple)
+//@   call r = (rel.StringCharTuple).Less(a, box(a))
+//@   ensures irrefl: !r
+//@ lemma[C06] c06_sct_tri(a: rel.StringCharTuple, b: rel.StringCharTuple)
+//@   call r1 = (rel.StringCharTuple).Less(a, box(b))
+//@   call r2 = (rel.StringCharTuple).Less(b, box(a))
+//@   ensures tri: exactlyOne(r1, r2, eq(box(a), box(b)))
+//@ lemma[C06] c06_sct_trans(a: rel.StringCharTuple, b: rel.StringCharTuple, c: rel.StringCharTuple)
+//@   call r1 = (rel.StringCharTuple).Less(a, box(b))
+//@   call r2 = (rel.StringCharTuple).Less(b, box(c))
+//@   call r3 = (rel.StringCharTuple).Less(a, box(c))
+//@   ensures trans: r1 && r2 ==> r3
+//@ lemma[C06] c06_sct_kindrule(a: rel.StringCharTuple, v: Val)
+//@   requires aValue(v)
+//@   call r = (rel.StringCharTuple).Less(a, v)
+//@   ensures rule: kind(box(a)) != kind(v) ==> (r == (kind(box(a)) < kind(v)))
+//@   ensures eqkind: eq(box(a), v) ==> kind(box(a)) == kind(v)
+
+// ---- BytesByteTuple
+//@ lemma[C06] c06_bbt_irrefl(a: rel.BytesByteTuple)
+//@   call r = (rel.BytesByteTuple).Less(a, box(a))
+//@   ensures irrefl: !r
+//@ lemma[C06] c06_bbt_tri(a: rel.BytesByteTuple, b: rel.BytesByteTuple)
+//@   call r1 = (rel.BytesByteTuple).Less(a, box(b))
+//@   call r2 = (rel.BytesByteTuple).Less(b, box(a))
+//@   ensures tri: exactlyOne(r1, r2, eq(box(a), box(b)))
+//@ lemma[C06] c06_bbt_trans(a: rel.BytesByteTuple, b: rel.BytesByteTuple, c: rel.BytesByteTuple)
+//@   call r1 = (rel.BytesByteTuple).Less(a, box(b))
+//@   call r2 = (rel.BytesByteTuple).Less(b, box(c))
+//@   call r3 = (rel.BytesByteTuple).Less(a, box(c))
+//@   ensures trans: r1 && r2 ==> r3
+//@ lemma[C06] c06_bbt_kindrule(a: rel.BytesByteTuple, v: Val)
+//@   requires aValue(v)
+//@   call r = (rel.BytesByteTuple).Less(a, v)
+//@   ensures rule: kind(box(a)) != kind(v) ==> (r == (kind(box(a)) < kind(v)))
+//@   ensures eqkind: eq(box(a), v) ==> kind(box(a)) == kind(v)
+
+// ---- Number (NaN: see findings)
+//@ lemma[C06] c06_num_irrefl(a: rel.Number)
+//@   call r = (rel.Number).Less(a, mkval(rel.Number, a))
+//@   ensures irrefl: !r
+//@ lemma[C06] c06_num_tri(a: rel.Number, b: rel.Number)
+//@   call r1 = (rel.Number).Less(a, mkval(rel.Number, b))
+//@   call r2 = (rel.Number).Less(b, mkval(rel.Number, a))
+//@   ensures tri: exactlyOne(r1, r2, eq(mkval(rel.Number, a), mkval(rel.Number, b)))
+//@ lemma[C06] c06_num_trans(a: rel.Number, b: rel.Number, c: rel.Number)
+//@   call r1 = (rel.Number).Less(a, mkval(rel.Number, b))
+//@   call r2 = (rel.Number).Less(b, mkval(rel.Number, c))
+//@   call r3 = (rel.Number).Less(a, mkval(rel.Number, c))
+//@   ensures trans: r1 && r2 ==> r3
+//@ lemma[C06] c06_num_kindrule(a: rel.Number, v: Val)
+//@   requires aValue(v)
+//@   call r = (rel.Number).Less(a, v)
+//@   ensures rule: kind(mkval(rel.Number, a)) != kind(v) ==> (r == (kind(mkval(rel.Number, a)) < kind(v)))
+//@   ensures eqkind: eq(mkval(rel.Number, a), v) ==> kind(mkval(rel.Number, a)) == kind(v)
+
+// ---- ArrayItemTuple (the items' order is assumed to be a strict total order on the items involved)
+//@ lemma[C06] c06_ait_irrefl(a: rel.ArrayItemTuple)
+//@   requires a.item != nil && !less(a.item, a.item)
+//@   call r = (rel.ArrayItemTuple).Less(a, box(a))
+//@   ensures irrefl: !r
+//@ lemma[C06] c06_ait_tri(a: rel.ArrayItemTuple, b: rel.ArrayItemTuple)
+//@   requires a.item != nil && b.item != nil && tri(a.item, b.item)
+//@   call r1 = (rel.ArrayItemTuple).Less(a, box(b))
+//@   call r2 = (rel.ArrayItemTuple).Less(b, box(a))
+//@   ensures tri: exactlyOne(r1, r2, eq(box(a), box(b)))
+//@ lemma[C06] c06_ait_trans(a: rel.ArrayItemTuple, b: rel.ArrayItemTuple, c: rel.ArrayItemTuple)
+//@   requires a.item != nil && b.item != nil && c.item != nil && trans(a.item, b.item, c.item)
+//@   call r1 = (rel.ArrayItemTuple).Less(a, box(b))
+//@   call r2 = (rel.ArrayItemTuple).Less(b, box(c))
+//@   call r3 = (rel.ArrayItemTuple).Less(a, box(c))
+//@   ensures trans: r1 && r2 ==> r3
+//@ lemma[C06] c06_ait_kindrule(a: rel.ArrayItemTuple, v: Val)
+//@   requires aValue(v) && a.item != nil
+//@   call r = (rel.ArrayItemTuple).Less(a, v)
+//@   ensures rule: kind(box(a)) != kind(v) ==> (r == (kind(box(a)) < kind(v)))
+//@   ensures eqkind: eq(box(a), v) ==> kind(box(a)) == kind(v)
+
+// ---- DictEntryTuple (keys' and values' orders assumed strict total and consistent with eq; eq an equivalence)
+//@ lemma[C06] c06_det_irrefl(a: rel.DictEntryTuple)
+//@   requires a.at != nil && a.value != nil && !less(a.at, a.at) && !less(a.value, a.value)
+//@   call r = (rel.DictEntryTuple).Less(a, box(a))
+//@   ensures irrefl: !r
+//@ lemma[C06] c06_det_tri(a: rel.DictEntryTuple, b: rel.DictEntryTuple)
+//@   requires a.at != nil && a.value != nil && b.at != nil && b.value != nil
+//@   requires tri(a.at, b.at) && tri(a.value, b.value) && eq(a.at, b.at) == eq(b.at, a.at)
+//@   call r1 = (rel.DictEntryTuple).Less(a, box(b))
+//@   call r2 = (rel.DictEntryTuple).Less(b, box(a))
+//@   ensures tri: exactlyOne(r1, r2, eq(box(a), box(b)))
+//@ lemma[C06] c06_det_trans(a: rel.DictEntryTuple, b: rel.DictEntryTuple, c: rel.DictEntryTuple)
+//@   requires a.at != nil && a.value != nil && b.at != nil && b.value != nil && c.at != nil && c.value != nil
+//@   requires trans(a.at, b.at, c.at) && trans(a.value, b.value, c.value)
+//@   requires eq(a.at, b.at) && eq(b.at, c.at) ==> eq(a.at, c.at)                    // eq transitive
+//@   requires eq(a.at, b.at) ==> (less(a.at, c.at) == less(b.at, c.at))             // < respects eq (left)
+//@   requires eq(b.at, c.at) ==> (less(a.at, b.at) == less(a.at, c.at))             // < respects eq (right)
+//@   requires !(eq(a.at, c.at) && less(a.at, b.at) && less(b.at, c.at))             // a<b<c excludes a=c
+//@   call r1 = (rel.DictEntryTuple).Less(a, box(b))
+//@   call r2 = (rel.DictEntryTuple).Less(b, box(c))
+//@   call r3 = (rel.DictEntryTuple).Less(a, box(c))
+//@   ensures trans: r1 && r2 ==> r3
+//@ lemma[C06] c06_det_kindrule(a: rel.DictEntryTuple, v: Val)
+//@   requires aValue(v) && a.at != nil && a.value != nil
+//@   call r = (rel.DictEntryTuple).Less(a, v)
+//@   ensures rule: kind(box(a)) != kind(v) ==> (r == (kind(box(a)) < kind(v)))
+//@   ensures eqkind: eq(box(a), v) ==> kind(box(a)) == kind(v)
+
+// ==== slice-backed sets: String, Bytes, Array =========================================================
+// Their content lives in heap rows, so `less` on them cannot be defined by prelude axioms; the
+// postconditions are written with spec macros over the fields instead (40_order.spec).
+
+// ---- String (value_set_str.go)
+//@ func (String).Kind(s)
+//@   tags C06, C10
+//@   pure
+//@   ensures[C06] reg: result == 204
+//@   ensures[C06] refines: result == kind(box(s))
+
+//@ func (String).String(s)
+//@   tags C06, C10
+//@   assigns nothing
+//@   ensures[C06] result == strOf(s)
+
+//@ func (String).Less(s; v)
+//@   tags C06, C10
+//@   assigns nothing
+//@   requires aValue(v)
+//@   ensures[C06] exact: result == (kind(v) != 204 ? 204 < kind(v) : slt(strOf(s), strOf(v.(String))))
+
+//@ func (String).EqualString(s; t)
+//@   tags C06, C10
+//@   assigns nothing
+//@   ensures[C06] exact: result == eqString(s, t)
+//@   loop 0 invariant pre: 0 <= $idx && $idx <= len(s.s) && len(s.s) == len(t.s) && forall k in 0..$idx :: s.s[k] == t.s[k]
+
+//@ func (String).Equal(s; v)
+//@   tags C06, C10
+//@   assigns nothing
+//@   ensures[C06] exact: result == (v is String && eqString(s, v.(String)))
+
+//@ lemma[C06] c06_str_irrefl(a: rel.String)
+//@   call r = (rel.String).Less(a, box(a))
+//@   ensures irrefl: !r
+//@ lemma[C06] c06_str_tri(a: rel.String, b: rel.String)
+//@   call r1 = (rel.String).Less(a, box(b))
+//@   call r2 = (rel.String).Less(b, box(a))
+//@   call e = (rel.String).Equal(a, box(b))
+//@   ensures atmost: !(r1 && r2) && !(r1 && e) && !(r2 && e)
+//@ lemma[C06] c06_str_total(a: rel.String, b: rel.String)
+//@   requires a.holes == b.holes     // canonical form (C02): holes == number of negative runes; outside the finding's region both are 0
+//@   call r1 = (rel.String).Less(a, box(b))
+//@   call r2 = (rel.String).Less(b, box(a))
+//@   call e = (rel.String).Equal(a, box(b))
+//@   ensures total: r1 || r2 || e
+//@ lemma[C06] c06_str_trans(a: rel.String, b: rel.String, c: rel.String)
+//@   call r1 = (rel.String).Less(a, box(b))
+//@   call r2 = (rel.String).Less(b, box(c))
+//@   call r3 = (rel.String).Less(a, box(c))
+//@   ensures trans: r1 && r2 ==> r3
+//@ lemma[C06] c06_str_kindrule(a: rel.String, v: Val)
+//@   requires aValue(v)
+//@   call r = (rel.String).Less(a, v)
+//@   call e = (rel.String).Equal(a, v)
+//@   ensures rule: kind(box(a)) != kind(v) ==> (r == (kind(box(a)) < kind(v)))
+//@   ensures eqkind: e ==> kind(box(a)) == kind(v)
+
+// ---- Bytes (value_set_bytes.go)
+//@ func (Bytes).Kind(b)
+//@   tags C06, C10
+//@   pure
+//@   ensures[C06] reg: result == 207
+//@   ensures[C06] refines: result == kind(box(b))
+
+//@ func (Bytes).Less(b; v)
+//@   tags C06, C10
+//@   assigns nothing
+//@   requires aValue(v)
+//@   ensures[C06] exact: result == (kind(v) != 207 ? 207 < kind(v) : (b.offset < v.(Bytes).offset || (b.offset == v.(Bytes).offset && slt(bytesOf(b), bytesOf(v.(Bytes))))))
+
+// ---- Array (value_set_array.go)
+//@ func (Array).Kind(a)
+//@   tags C06, C10
+//@   pure
+//@   ensures[C06] reg: result == 208
+//@   ensures[C06] refines: result == kind(box(a))
+
+//@ func (Array).Less(a; v)
+//@   tags C06, C10
+//@   assigns nothing
+//@   requires aValue(v)
+//@   ensures[C06] kindrule: kind(v) != 208 ==> result == (208 < kind(v))
+//@   ensures[C06] offset: kind(v) == 208 && a.offset != v.(Array).offset ==> result == (a.offset < v.(Array).offset)
+//@   ensures[C06] lex: kind(v) == 208 && a.offset == v.(Array).offset ==> (result <==> arrLexLess(a.values, v.(Array).values))
+//@   loop 0 invariant b: 0 <= $idx && $idx <= n && n <= len(a.values) && n <= len(b.values) && (n == len(a.values) || n == len(b.values))
+//@   loop 0 invariant tie: forall k in 0..$idx :: itemTie(a.values[k], b.values[k])
+
+// ---- EmptySet / TrueSet (value_set_empty.go, value_set_true.go): bespoke rules checked against the kind rule
+//@ func (EmptySet).Kind(e)
+//@   tags C06, C10
+//@   pure
+//@   ensures[C06] reg: result == 198
+//@   ensures[C06] refines: result == kind(box(e))
+
+//@ func (EmptySet).Less(e; v)
+//@   tags C06, C10
+//@   pure
+//@   requires aValue(v)
+//@   ensures[C06] refines: result == (198 < kind(v)) && result == less(box(e), v)     // one clause: the less axiom is keyed on kind
+
+//@ func (TrueSet).Kind(t)
+//@   tags C06, C10
+//@   pure
+//@   ensures[C06] reg: result == 199
+//@   ensures[C06] refines: result == kind(box(t))
+
+//@ func (TrueSet).Less(t; v)
+//@   tags C06, C10
+//@   pure
+//@   requires aValue(v)
+//@   ensures[C06] refines: result == (199 < kind(v)) && result == less(box(t), v)     // one clause: the less axiom is keyed on kind
+
+// ---- kindrule lemmas for the slice-backed sets and the constant sets
+//@ lemma[C06] c06_bytes_kindrule(a: rel.Bytes, v: Val)
+//@   requires aValue(v)
+//@   call r = (rel.Bytes).Less(a, v)
+//@   ensures rule: kind(box(a)) != kind(v) ==> (r == (kind(box(a)) < kind(v)))
+//@ lemma[C06] c06_arr_kindrule(a: rel.Array, v: Val)
+//@   requires aValue(v)
+//@   call r = (rel.Array).Less(a, v)
+//@   ensures rule: kind(box(a)) != kind(v) ==> (r == (kind(box(a)) < kind(v)))
+//@ lemma[C06] c06_arr_irrefl(a: rel.Array)
+//@   requires forall i in 0..len(a.values) :: a.values[i] != nil ==> !less(a.values[i], a.values[i])
+//@   call r = (rel.Array).Less(a, box(a))
+//@   ensures irrefl: !r
+//@ lemma[C06] c06_empty_kindrule(a: rel.EmptySet, v: Val)
+//@   requires aValue(v)
+//@   call r = (rel.EmptySet).Less(a, v)
+//@   ensures rule: kind(box(a)) != kind(v) ==> (r == (kind(box(a)) < kind(v)))
+//@   ensures irrefl: kind(v) == 198 ==> !r
+//@ lemma[C06] c06_true_kindrule(a: rel.TrueSet, v: Val)
+//@   requires aValue(v)
+//@   call r = (rel.TrueSet).Less(a, v)
+//@   ensures rule: kind(box(a)) != kind(v) ==> (r == (kind(box(a)) < kind(v)))
+//@   ensures irrefl: kind(v) == 199 ==> !r
+
+// ==== frozen-backed values: thin contracts (kind registration + refinement of `kind`) ================
+// GenericSet / UnionSet / Dict / Relation / Closure / ExprClosure / NativeFunction keep their content in
+// the frozen library (or compare printed forms); only Kind is under contract here. Their Less methods
+// all start with the shared rule `if x.Kind() != v.Kind() { return x.Kind() < v.Kind() }`.
+//@ func (GenericSet).Kind(s)
+//@   tags C06, C10
+//@   pure
+//@   ensures[C06] reg: result == 200
+//@   ensures[C06] refines: result == kind(box(s))
+//@ func (UnionSet).Kind(u)
+//@   tags C06, C10
+//@   pure
+//@   ensures[C06] reg: result == 210
+//@   ensures[C06] refines: result == kind(box(u))
+//@ func (Dict).Kind(d)
+//@   tags C06, C10
+//@   pure
+//@   ensures[C06] reg: result == 209
+//@   ensures[C06] refines: result == kind(box(d))
+//@ func (Relation).Kind(r)
+//@   tags C06, C10
+//@   pure
+//@   ensures[C06] reg: result == 211
+//@   ensures[C06] refines: result == kind(box(r))
+//@ func (Closure).Kind(c)
+//@   tags C06, C10
+//@   pure
+//@   ensures[C06] reg: result == 205
+//@   ensures[C06] refines: result == kind(box(c))
+//@ func (ExprClosure).Kind(c)
+//@   tags C06, C10
+//@   pure
+//@   ensures[C06] reg: result == 206
+//@   ensures[C06] refines: result == kind(box(c))
+//@ func (*NativeFunction).Kind(f)
+//@   tags C06, C10
+//@   pure
+//@   ensures[C06] reg: result == 203
+//@   ensures[C06] refines: result == kind(box(f))
+
+// ==== derived operators: each is that one order ===================================================
+//@ func ValueLess(a, b)
+//@   tags C06, C10
+//@   pure
+//@   requires a != nil
+//@   ensures[C06] same: result == less(a, b)
+
+//@ func (ValueList).Less(vl; i, j)
+//@   tags C06, C10
+//@   pure
+//@   requires 0 <= i && i < len(vl) && 0 <= j && j < len(vl) && vl[i] != nil
+//@   ensures[C06] same: result == less(vl[i], vl[j])
+
+//@ func (dictEntryTupleSort).Less(s; a, b)
+//@   tags C06, C10
+//@   pure
+//@   requires 0 <= a && a < len(s) && 0 <= b && b < len(s) && s[a].at != nil && s[a].value != nil
+//@   ensures[C06] same: kind(mkval(rel.DictEntryTuple, s[b].at, s[b].value)) == 303 && result == less(mkval(rel.DictEntryTuple, s[a].at, s[a].value), mkval(rel.DictEntryTuple, s[b].at, s[b].value))
+
+//@ func (*orderer).Less(o; i, j)
+//@   tags C06, C10
+//@   assigns nothing
+//@   fnparam * pure
+//@   requires o != nil && 0 <= i && i < len(o.keys) && 0 <= j && j < len(o.keys) && o.less != nil
+// (thin: safety only. `result == o.less(keys[i], keys[j])` cannot be written: the spec language has no application of a func-typed field)
+
+// orderby's comparator (expr_binary.go NewOrderByExpr, second literal of the evaluation closure)
+// NOTE: rel.NewOrderByExpr$1$2 already has a (thin, C10) contract in verif_contracts_c10.go, so the C06
+// clauses cannot be given here (duplicate key). They prove (checked in an isolated run) and should be
+// merged into that contract:
+//    requires a != nil
+//    ensures[C06] same: result == less(a, b)
+
+// rank's comparator (ops_set_rank.go)
+//@ interface Tuple.MustGet(t; name)
+//@   pure
+//@   ensures result != nil
+//@ func (rankerSlice).Less(o; i, j)
+//@   tags C06, C10
+//@   assigns nothing
+//@   requires 0 <= i && i < len(o.entries) && 0 <= j && j < len(o.entries)
+//@   requires forall k in 0..len(o.entries) :: o.entries[k] != nil && o.entries[k].ranker != nil
